@@ -834,7 +834,7 @@ package mocrelay
 //@   serves C12 C13 C16 C17
 //@   opt inst.T=ServerMsg
 //@   writes contents(ch), ghost(dropped, ch)
-//@   ensures sent ==> appendedS(chanbuf(ch), old(chanbuf(ch)), v)
+//@   ensures sent ==> (len(chanbuf(ch)) == len(old(chanbuf(ch))) + 1 && forall(i, 0, len(old(chanbuf(ch))), chanbuf(ch)[i] == old(chanbuf(ch))[i]) && chanbuf(ch)[len(old(chanbuf(ch)))] == v)
 //@   promises sent ==> g(dropped, ch) == old(g(dropped, ch))
 //@   ensures !sent ==> chanbuf(ch) == old(chanbuf(ch))
 //@   promises !sent ==> g(dropped, ch) == old(g(dropped, ch)) + 1
@@ -845,7 +845,7 @@ package mocrelay
 //@   opt inst.T=ServerMsg
 //@   opt nonblocking=true
 //@   writes contents(ch), ghost(dropped, ch)
-//@   ensures sent ==> appendedS(chanbuf(ch), old(chanbuf(ch)), v)
+//@   ensures sent ==> (len(chanbuf(ch)) == len(old(chanbuf(ch))) + 1 && forall(i, 0, len(old(chanbuf(ch))), chanbuf(ch)[i] == old(chanbuf(ch))[i]) && chanbuf(ch)[len(old(chanbuf(ch)))] == v)
 //@   promises sent ==> g(dropped, ch) == old(g(dropped, ch))
 //@   ensures !sent ==> chanbuf(ch) == old(chanbuf(ch))
 //@   promises !sent ==> g(dropped, ch) == old(g(dropped, ch)) + 1
